@@ -27,7 +27,7 @@ COMPONENTS = {'real': ['enspara.cluster.kmedoids (_kmedoids_pam_update, proposer
 ASSUMPTIONS = ['cost comparisons allow 4*n ulp (the library and the model may sum in different orders; under MPI the '
                'reduction order is legitimately free)', 'explicit proposals are members of the cluster being updated',
                'zero sweeps are requested through k-hybrid, which supports it, not through kmedoids(n_iters=0)']
-REACH_EXPECTED = ['per_rank_generators', 'proposal_accepted', 'proposal_rejected', 'mpi_run', 'random_sweep', 'hybrid_cost_sequence',
+REACH_EXPECTED = ['estimator_reproducibility', 'per_rank_generators', 'proposal_accepted', 'proposal_rejected', 'mpi_run', 'random_sweep', 'hybrid_cost_sequence',
                   'reproducibility_checked', 'reproducible_across_poison', 'warm_centres_only', 'warm_labels_only',
                   'cold_start_sequence', 'empty_cluster_share_on_rank']
 
@@ -227,6 +227,28 @@ def scenario(ctx):
     # ---- reproducibility
     rseed = t.draw(1000)
     n_iters = t.irange(1, 4)
+    if not mpi and t.flag(1, 4):
+        # estimator form: two objects built from the same seed give the same clustering; a second fit() of one object on
+        # the same data must still satisfy the cost guarantee (its generator has moved on, so it need not be identical)
+        specE = dict(algo='hybrid', form='estimator', k=k, cutoff=cutoff, n_iters=n_iters, random_state=rseed)
+        a = run(specE, suffix='ea')
+        np.random.seed(t.draw(2 ** 31 - 1))
+        np.random.rand(1 + t.draw(10))
+        b = run(specE, suffix='eb')
+        require(a.key() == b.key(), 'not_reproducible', lambda: 'two KHybrid objects with random_state=%d disagree: centres %s vs %s' %
+                (rseed, a.ci, b.ci))
+        est = b.est
+        base = run(dict(algo='kcenters', form='function', k=k, cutoff=cutoff))
+        ctx.sut(est.fit, P.X.copy())
+        g2 = clrun.GResult(est.center_indices_, est.centers_, est.labels_, est.distances_)
+        centres_are_frames(P, g2, 'second fit of one KHybrid object:')
+        require(le_model(model_cost(P, g2), model_cost(P, base), P), 'hybrid_worse_than_kcenters',
+                lambda: 'second fit() of the same KHybrid object: cost %.17g > k-centers cost %.17g' % (model_cost(P, g2), model_cost(P, base)))
+        require(len(g2.ci) == len(base.ci), 'cluster_count_changed', 'second fit changed the number of clusters')
+        ctx.hit('estimator_reproducibility')
+        if len(a.ci) >= 2:
+            ctx.nontrivial = True
+        return
     use_props = t.flag(1, 3) and not mpi
     if use_props:
         g0 = run(dict(algo='kcenters', form='function', k=k, cutoff=cutoff))
